@@ -4,6 +4,12 @@ package local
 
 import (
 	vnd "github.com/buildbarn/bb-storage/internal/verifnd"
+	"github.com/buildbarn/bb-storage/pkg/blobstore/buffer"
+	"github.com/buildbarn/bb-storage/pkg/digest"
+	"github.com/prometheus/client_golang/prometheus"
+
+	"google.golang.org/grpc/codes"
+	"google.golang.org/grpc/status"
 )
 
 // verifTable is a LocationRecordArray whose complete contents are chosen by
@@ -64,3 +70,175 @@ func verifKeyWord(k *Key) uint64 {
 // verifNativeHashHook: see native_hooks.json — consulted by the natively compiled
 // LocationRecordKey.Hash (overlay) before the real computation. Nil outside C06.
 var verifNativeHashHook func(k *LocationRecordKey, hashInitialization uint64) (uint64, bool)
+
+// ---------------------------------------------------------------------------
+// verifBlockList: a BlockList stub for checking OldCurrentNewLocationBlobMap in
+// isolation. Blocks are identified by an absolute number (released + index);
+// BlockReference.EpochID carries that absolute number. Free space per block is
+// chosen by the harness (symbolic); blocks appended by PushBack are empty.
+// ---------------------------------------------------------------------------
+type verifBlockList struct {
+	blockSize int64
+	space     []int64 // free bytes per block currently in the list
+	released  int     // blocks popped so far
+	pops      int
+	pushes    int
+	failPush  bool // when set (symbolic), the next PushBack fails
+	puts      []verifListPut
+	getCalls  int
+	lastCB    func(bool) // integrity callback of the most recent Get
+	finalizeErr bool     // Put finalizer reports failure
+}
+
+type verifListPut struct {
+	index int
+	size  int64
+}
+
+func (bl *verifBlockList) BlockReferenceToBlockIndex(r BlockReference) (int, uint64, bool) {
+	idx := int(r.EpochID) - bl.released
+	if idx < 0 || idx >= len(bl.space) || r.BlocksFromLast != 0 {
+		return 0, 0, false
+	}
+	return idx, 0, true
+}
+
+func (bl *verifBlockList) BlockIndexToBlockReference(blockIndex int) (BlockReference, uint64) {
+	return BlockReference{EpochID: uint32(bl.released + blockIndex)}, 0
+}
+
+func (bl *verifBlockList) PopFront() {
+	if len(bl.space) == 0 {
+		vnd.Unreachable("PopFront on an empty block list")
+	}
+	bl.space = bl.space[1:]
+	bl.released++
+	bl.pops++
+}
+
+func (bl *verifBlockList) PushBack() error {
+	if bl.failPush {
+		return verifErrNoSpace
+	}
+	bl.space = append(bl.space, bl.blockSize)
+	bl.pushes++
+	return nil
+}
+
+func (bl *verifBlockList) Get(index int, d digest.Digest, offsetBytes, sizeBytes int64, cb buffer.DataIntegrityCallback) buffer.Buffer {
+	if index < 0 || index >= len(bl.space) {
+		vnd.Unreachable("BlockList.Get with an index outside the list")
+	}
+	bl.getCalls++
+	bl.lastCB = cb
+	return buffer.NewBufferFromError(verifErrNoSpace)
+}
+
+func (bl *verifBlockList) HasSpace(index int, sizeBytes int64) bool {
+	if index < 0 || index >= len(bl.space) {
+		vnd.Unreachable("BlockList.HasSpace with an index outside the list")
+	}
+	return bl.space[index] >= sizeBytes
+}
+
+func (bl *verifBlockList) Put(index int, sizeBytes int64) BlockListPutWriter {
+	if index < 0 || index >= len(bl.space) {
+		vnd.Unreachable("BlockList.Put with an index outside the list")
+	}
+	if bl.space[index] < sizeBytes {
+		vnd.Unreachable("BlockList.Put into a block without space")
+	}
+	off := bl.blockSize - bl.space[index]
+	bl.space[index] -= sizeBytes
+	bl.puts = append(bl.puts, verifListPut{index: index, size: sizeBytes})
+	return func(b buffer.Buffer) BlockPutFinalizer {
+		b.Discard()
+		return func() (int64, error) {
+			if bl.finalizeErr {
+				return 0, verifErrNoSpace
+			}
+			return off, nil
+		}
+	}
+}
+
+var verifErrNoSpace = status.Error(codes.Unavailable, "verif: injected block list failure")
+
+type verifErrorLogger struct{ n int }
+
+func (l *verifErrorLogger) Log(err error) { l.n++ }
+
+// verifOCN is an OldCurrentNewLocationBlobMap in an arbitrary valid state over a stub block list.
+type verifOCN struct {
+	lbm    *OldCurrentNewLocationBlobMap
+	bl     *verifBlockList
+	logger *verifErrorLogger
+	O, C, N int
+	mutable bool
+}
+
+// verifNewOCN builds the state directly (in-package), constrained only by the
+// representation invariant: counts non-negative, len(old) <= O, current <= C,
+// new <= N, list length = old+current+new, allocation cursor inside `new`.
+func verifNewOCN(maxO int) *verifOCN { return verifNewOCNProfile(maxO, true) }
+
+// verifNewOCNProfile with full=false fixes what the quarantine lemmas do not
+// depend on (growth policy parameters, allocation cursor) to keep paths few.
+func verifNewOCNProfile(maxO int, full bool) *verifOCN {
+	x := &verifOCN{}
+	x.O = vnd.Choose(maxO + 1)
+	if full {
+		x.C = vnd.Choose(3)
+		x.N = 1 + vnd.Choose(2)
+		x.mutable = vnd.Choose(2) == 1
+	} else {
+		x.C = 1
+		x.N = 1 + vnd.Choose(2)
+		x.mutable = vnd.Choose(2) == 1
+	}
+	old := vnd.Choose(x.O + 1)
+	cur := vnd.Choose(x.C + 1)
+	nw := vnd.Choose(x.N + 1)
+	const blockSize = 64
+	x.bl = &verifBlockList{blockSize: blockSize}
+	for i := 0; i < old+cur+nw; i++ {
+		free := int64(vnd.Int(0, blockSize))
+		x.bl.space = append(x.bl.space, free)
+	}
+	x.bl.released = vnd.Int(0, 1000)
+	x.logger = &verifErrorLogger{}
+	var policy BlockListGrowthPolicy
+	if x.mutable {
+		policy = NewMutableBlockListGrowthPolicy(x.C)
+	} else {
+		policy = NewImmutableBlockListGrowthPolicy(x.C, x.N)
+	}
+	lbm := &OldCurrentNewLocationBlobMap{
+		blockList:             x.bl,
+		blockListGrowthPolicy: policy,
+		errorLogger:           x.logger,
+		blockSizeBytes:        blockSize,
+		desiredOldBlocksCount: x.O,
+		desiredNewBlocksCount: x.N,
+		oldBlocks:             make([]oldBlockState, old),
+		currentBlocks:         cur,
+		newBlocks:             nw,
+		totalBlocksReleased:   uint64(x.bl.released),
+		lastRemovedOldBlockInsertionTime: verifGauge{},
+	}
+	lbm.totalBlocksToBeReleased.Store(uint64(x.bl.released))
+	lbm.allocationBlockIndex = -1
+	if nw > 0 && full {
+		// cursor == -1 only right after a reset, which also zeroes the attempts
+		lbm.allocationBlockIndex = vnd.Choose(nw+1) - 1
+		if lbm.allocationBlockIndex >= 0 {
+			lbm.allocationAttemptsRemaining = vnd.Choose(3)
+		}
+	}
+	x.lbm = lbm
+	return x
+}
+
+type verifGauge struct{ prometheus.Gauge }
+
+func (verifGauge) Set(float64) {}
